@@ -18,6 +18,8 @@ import RbV.Model.PoaI32
 import RbV.Lemmas.PoaI32
 import RbV.Thm.GenSrcPoaAdd
 import RbV.Thm.GenSrcPoaAlign
+import RbV.Thm.GenSrcPoaScore
+import RbV.Thm.GenSrcPoaConsensus
 /-!
 # C16 — partial-order alignment: exact on linear graphs, graph stays a growing DAG
 
@@ -532,6 +534,70 @@ theorem poa_history_source_acyclic_only_grows_partial (sc : Sc) (cl : Poa.Model.
   exact ⟨hd.ne, hd.wf, hd.acyclic, (Poa.Model.stepAdd_grows sc cl g mode q).extends,
     Poa.Model.stepAdd_node_growth sc cl g mode q⟩
 
+/-- **the translated `Poa::custom` reports the score of the checked-`i32` mirror** (hard, tie-robust: stated on scores, so
+a property-preserving change of a `max` tie-break — seeded C16-H1 — re-proves).  For every scoring, clip penalties (=
+every mode: `global` / `semiglobal` / `local` / `custom` differ only in the penalties), query and non-empty well-formed DAG
+(sizes below `2^64 − 1`): whenever `Model.customTableC` is `some t` (no `i32` overflow — `poa_i32_no_overflow` inside
+`PoaEnv`), the translated `custom` does not panic, `last` / `cols` are the mirror's, and `get(last + 1, cols).score`
+— the score `Traceback::alignment` reports — is `t.score`.  Covers `with_capacity`, `initialize_scores`, the DP over the
+topological order, X and Y suffix clipping.  (Operation-list equality: soft module / correspondence run.) -/
+theorem poa_custom_source_score_eq_model (sc : Sc) (xp xs yp ys : Int) (g : Poa.Model.G) (query : List Nat)
+    (t : Poa.Model.BTable)
+    (hne : g.labels ≠ []) (hwf : ∀ e ∈ g.es, e.1 < g.labels.length ∧ e.2.1 < g.labels.length)
+    (hac : ∀ v, ¬ Reach (plain g.es) v v)
+    (hm : g.labels.length + 1 < 2 ^ 64) (hn : query.length + 1 < 2 ^ 64)
+    (h : Poa.Model.customTableC sc xp xs yp ys g.labels g.es query = some t) :
+    ∃ tb, RbV.Gen.SrcPoaAlign.custom sc.w g sc.gap xp xs yp ys query = Rs.Res.ok tb ∧ tb.last = t.last ∧ tb.cols = t.n ∧
+      (∃ c, RbV.Gen.SrcPoaAlign.Traceback_get tb (tb.last + 1) tb.cols = Rs.Res.ok c ∧ c.score = t.score) ∧
+      ∀ a, RbV.Gen.SrcPoaAlign.Traceback_alignment tb = Rs.Res.ok a → a.score = t.score := by
+  obtain ⟨tb, e, el, ec, _, c, hc, hs⟩ := RbV.Thm.GenSrcPoaScore.custom_score_eq_model sc xp xs yp ys g.labels g.es query t
+    (RbV.Thm.GenSrcPoaScore.graphOK_of_dag g ⟨hne, hwf, hac⟩) hm hn h
+  refine ⟨tb, e, el, ec, ⟨c, hc, hs⟩, ?_⟩
+  intro a ha
+  obtain ⟨c', hc', ha'⟩ := RbV.Thm.GenSrcPoaScore.alignment_score tb a ha
+  rw [hc] at hc'
+  cases hc'
+  rw [ha', hs]
+
+/-- **score clause at source level**: the translated `Poa::custom` with the four clip penalties at `MIN_SCORE` — what
+`Aligner::global` runs (the wrapper that overrides the penalties is not translated) — on the graph built from one
+non-empty sequence `x` reports the **Needleman–Wunsch optimum** `nwBest sc x q`, inside the `i32` envelope `PoaEnv` and
+under the sentinel condition of `model_faithful_global_on_linear_graph_is_optimum`.  (That the operation list is a valid
+alignment is not proved at source level: `acceptGlobal` checks it on every sampled case.) -/
+theorem poa_global_source_exact_linear (sc : Sc) (x q : List Nat) (B W : Int) (hx : x ≠ [])
+    (henv : Poa.Model.PoaEnv sc Poa.Model.minScore Poa.Model.minScore Poa.Model.minScore Poa.Model.minScore x q B)
+    (hW : 0 ≤ W) (hw : ∀ a b, sc.w a b ≤ W)
+    (hmin : Poa.Model.minScore < ((x.length + q.length + 1 : Nat) : Int) * sc.gap - (q.length : Int) * W)
+    (hm : x.length + 1 < 2 ^ 64) (hn : q.length + 1 < 2 ^ 64) :
+    ∃ tb, RbV.Gen.SrcPoaAlign.custom sc.w (Poa.Model.chainG x) sc.gap Poa.Model.minScore Poa.Model.minScore
+        Poa.Model.minScore Poa.Model.minScore q = Rs.Res.ok tb ∧
+      (∃ c, RbV.Gen.SrcPoaAlign.Traceback_get tb (tb.last + 1) tb.cols = Rs.Res.ok c ∧ c.score = nwBest sc x q) ∧
+      ∀ a, RbV.Gen.SrcPoaAlign.Traceback_alignment tb = Rs.Res.ok a → a.score = nwBest sc x q := by
+  have hd := Poa.Model.chainG_dag x hx
+  have hC := poa_i32_no_overflow sc _ _ _ _ x (Poa.Model.chainG x).es q B henv hd.wf hd.acyclic
+  have hopt := model_faithful_global_on_linear_graph_is_optimum sc x q W hx henv.gap.2 hW hw hmin
+  obtain ⟨tb, e, _, _, hget, hal⟩ := poa_custom_source_score_eq_model sc _ _ _ _ (Poa.Model.chainG x) q _ hd.ne hd.wf hd.acyclic
+    hm hn hC
+  have hsc : (Poa.Model.customTable sc Poa.Model.minScore Poa.Model.minScore Poa.Model.minScore Poa.Model.minScore x
+      (Poa.Model.chainG x).es q).score = nwBest sc x q := hopt
+  exact ⟨tb, e, by rw [← hsc]; exact hget, fun a ha => by rw [← hsc]; exact hal a ha⟩
+
+/-- **`Aligner::consensus` as translated returns a non-empty word spelled by a path** (hard, tie-robust: any arg-max
+choice).  On every non-empty well-formed DAG with fewer than `usize::MAX` nodes, whatever the edge weights: whenever the
+translated function returns `w` (the only panics left are `i32` overflows of the weight sums — every index is in range, the
+`unwrap` of `max_by_key` succeeds, the walk back ends within the fuel `node_count() + 2`), `w ≠ []` and `w` is `Spelled` by
+a walk of valid nodes.  Nothing is assumed about which of several equally heavy predecessors / end nodes is taken: only
+that one round of the maximisation keeps `best` or stores the neighbour (`for2_next`) and that the end node is an index of
+the table (`pick_lt`) — seeded C16-H2 (older node wins, `.rev()` before `max_by_key`) re-proves untouched. -/
+theorem poa_consensus_source_is_path (g : Poa.Model.G)
+    (hne : g.labels ≠ []) (hwf : ∀ e ∈ g.es, e.1 < g.labels.length ∧ e.2.1 < g.labels.length)
+    (hac : ∀ v, ¬ Reach (plain g.es) v v) (hsz : g.labels.length < 2 ^ 64 - 1) (w : List Nat)
+    (h : RbV.Gen.SrcPoaConsensus.consensus g = Rs.Res.ok w) : w ≠ [] ∧ Spelled g.labels (plain g.es) w :=
+  RbV.Thm.GenSrcPoaConsensus.consensus_is_path g ⟨hne, hwf, hac⟩ hsz w h
+
+example : RbV.Gen.SrcPoaConsensus.consensus { labels := [65, 67, 71, 84], es := [(0, 1, 2), (1, 2, 2), (0, 3, 1), (3, 2, 1)] } =
+    Rs.Res.ok [65, 67, 71] := by decide +kernel
+
 /-- **`Traceback::get` as translated = `BRow.get` of the mirror** on every row that represents a model row (`RowRep`: same
 band, cells equal up to the `MIN_SCORE` padding `new_row` allocates), with its three out-of-band answers -/
 theorem poa_traceback_get_source_eq_model (tb : Rs.Poa.Traceback) (i j : Nat) (rr : List Poa.Model.Cell × Nat × Nat)
@@ -563,6 +629,11 @@ theorem poa_traceback_new_row_set_source_eq_model (tb : Rs.Poa.Traceback) (row s
   ⟨RbV.Thm.GenSrcPoaAlign.new_row_eq tb row size gap xclip start end_ s0 e0 h c0 hc,
    fun i j cell cs s e h1 h2 h3 h4 => RbV.Thm.GenSrcPoaAlign.set_eq tb i j cell cs s e h1 h2 h3 h4⟩
 
+-- non-vacuity of `poa_global_source_exact_linear`: its envelope and sentinel hypotheses hold for a concrete scheme
+example : Poa.Model.PoaEnv exSc Poa.Model.minScore Poa.Model.minScore Poa.Model.minScore Poa.Model.minScore [65, 67, 71] [65, 84, 71] 1 :=
+  ⟨by decide, by decide, by decide, by decide, by decide, by decide, by decide, by decide, by decide, by decide, by decide⟩
+example : Poa.Model.minScore < ((3 + 3 + 1 : Nat) : Int) * exSc.gap - (3 : Int) * 1 ∧ ∀ a b, exSc.w a b ≤ 1 :=
+  ⟨by decide, fun a b => by unfold exSc; simp only; split <;> omega⟩
 -- non-vacuity: the translated functions run (no panic) on a concrete DAG; the addition creates the mismatch node
 example : (match RbV.Gen.SrcPoaAdd.add_alignment { labels := [65, 67, 71], es := [(0, 1, 1), (1, 2, 1)] }
       ⟨1, [.m none, .m (some (0, 1)), .m (some (1, 2))]⟩ [65, 84, 71] with
